@@ -33,6 +33,9 @@ def _wire_rows(rng: random.Random, per_pgn: int):
     rows, meta = [], []
     nums = sorted({int(n.split("_")[3]) for n in dir(pgns)
                    if n.startswith("is_fast_pgn_")})
+    # one long-lived encoder / decoder per format, as a gateway client uses them: nothing they remember from an
+    # earlier message (same PGN, source and priority, another destination) may show in a later identifier
+    live = {fmt: (NMEA2000Encoder(), NMEA2000Decoder()) for fmt in ("ebyte", "usb", "yd")}
     for pgn in nums:
         d0 = NMEA2000Decoder()
         try:
@@ -44,12 +47,15 @@ def _wire_rows(rng: random.Random, per_pgn: int):
             continue
         if base is None:
             continue
-        for _ in range(per_pgn):
-            src, prio = rng.randrange(256), rng.randrange(8)
-            dst = rng.choice([0, 35, 254, 255, rng.randrange(256)])
+        for k in range(per_pgn + 1):
+            if k < per_pgn or per_pgn == 0:
+                src, prio = rng.randrange(256), rng.randrange(8)
+                dst = rng.choice([0, 35, 254, 255, rng.randrange(256)])
+            else:                                   # once more: same source and priority, another destination
+                dst = (dst + 1 + rng.randrange(254)) % 256
             base.source, base.destination, base.priority = src, dst, prio
             for fmt in ("ebyte", "usb", "yd"):
-                enc, dec = NMEA2000Encoder(), NMEA2000Decoder()
+                enc, dec = live[fmt]
                 try:
                     if fmt == "ebyte":
                         pk = enc.encode_ebyte(base)
